@@ -26,6 +26,8 @@ from .. import common, seriallib
 from ..translate import serialflags, serialkeys, instsrc
 from . import c13x_multiroot
 
+seriallib.PATH_KEYS = True     # dict keys the walk's path encoding rewrites: instances must keep the configuration's keys (C13h)
+
 PROP = "C13"
 MODULES = ["XpmVerif.Properties.C13", "XpmVerif.Properties.C12Source", "XpmVerif.Properties.C13Src"]
 seriallib.install_local_findings(PROP)
